@@ -1,7 +1,5 @@
 """Adapters around the real Tree / Observer / ObserverList / CompareLocales; canonical forms of Ops/C10.lean."""
-import ast
 import hashlib
-import inspect
 import io
 import json
 import os
@@ -165,11 +163,52 @@ def project_filter(spec):
     return pc.filter
 
 
+FILTERPY_VALUES = {"true": True, "false": False, "report": "report", "error": "error", "ignore": "ignore",
+                   "warning": "warning"}
+
+
+def filter_py_source(rules, default="error"):
+    """the text of a legacy `filter.py`: `test(mod, path, entity=None)` answers with the value of the first rule
+    {prefix, on: "file"|"entity"|"any", match: regex or None, value} whose path prefix, kind of question (file level =
+    `entity is None`) and regex (searched in a `str` entity: a key, a message text, "" for updateStats) fit"""
+    lines = ["def test(mod, path, entity=None):", "    import re"]
+    for r in rules:
+        conds = ["path.startswith(%r)" % r.get("prefix", "")]
+        if r.get("mod") is not None:
+            conds.append("mod == %r" % r["mod"])
+        if r.get("on") == "file":
+            conds.append("entity is None")
+        elif r.get("on") == "entity":
+            conds.append("entity is not None")
+        if r.get("match") is not None:
+            conds.append("isinstance(entity, str) and re.search(%r, entity) is not None" % r["match"])
+        lines.append("    if %s:" % " and ".join(conds))
+        lines.append("        return %r" % (FILTERPY_VALUES[r["value"]],))
+    lines.append("    return %r" % (FILTERPY_VALUES[default],))
+    return "\n".join(lines) + "\n"
+
+
+def filterpy_filter(spec):
+    """a real ProjectConfig.filter with legacy filter.py code hooked up (`set_filter_py`): spec = {locales, rules, default}"""
+    from compare_locales.paths import ProjectConfig
+    local = {}
+    exec(compile(filter_py_source(spec["rules"], spec.get("default", "error")), "filter.py", "exec"), {}, local)
+    pc = ProjectConfig("/l10n/l10n.toml")
+    pc.set_root("/l10n")
+    pc.set_locales(spec["locales"])
+    pc.add_environment(l="/l10n/{locale}")
+    pc.add_paths({"l10n": "{l}/**"})
+    pc.set_filter_py(local["test"])
+    return pc.filter
+
+
 def make_filter(spec):
     if spec is None:
         return None
     if spec["kind"] == "table":
         return TableFilter(spec["seed"], spec["weights"], spec.get("ignore_locales", ()))
+    if spec["kind"] == "filterpy":
+        return filterpy_filter(spec)
     return project_filter(spec)
 
 
@@ -213,38 +252,62 @@ def filter_tables(case):
 
 
 # ------------------------------------------------------------------ exit status of commands.py
-_EXIT = None
+class _Sink(io.StringIO):
+    def close(self):        # `handle` closes sys.stdout after writing the JSON to it
+        pass
 
 
-def exit_expr():
-    """the expression assigned to `rv` at the end of CompareLocales.handle, taken from the source"""
-    global _EXIT
-    if _EXIT is None:
-        from compare_locales import commands
-        src = inspect.getsource(commands)
-        tree = ast.parse(src)
-        found = None
-        for cls in tree.body:
-            if isinstance(cls, ast.ClassDef) and cls.name == "CompareLocales":
-                for fn in cls.body:
-                    if isinstance(fn, ast.FunctionDef) and fn.name == "handle":
-                        assigns = [n for n in ast.walk(fn) if isinstance(n, ast.Assign)
-                                   and len(n.targets) == 1 and isinstance(n.targets[0], ast.Name)
-                                   and n.targets[0].id == "rv"]
-                        rets = [n for n in fn.body if isinstance(n, ast.Return)]
-                        if len(assigns) == 1 and rets and isinstance(rets[-1].value, ast.Name) and rets[-1].value.id == "rv":
-                            found = assigns[0].value
-        if found is None:
-            raise RuntimeError("commands.py: `rv = ...; return rv` not found in CompareLocales.handle")
-        names = {n.id for n in ast.walk(found) if isinstance(n, ast.Name)}
-        if not names <= {"return_zero", "observers"}:
-            raise RuntimeError("commands.py: exit expression uses %s" % sorted(names))
-        _EXIT = compile(ast.Expression(found), "<commands.py rv>", "eval")
-    return _EXIT
+class _StubConfig:
+    """what `handle` may touch of a loaded config between parsing it and handing it to compareProjects"""
+    all_locales = []
+    locales = []
+
+    def set_locales(self, locales, deep=False):
+        pass
 
 
-def exit_status(return_zero, observers):
-    return int(eval(exit_expr(), {}, {"return_zero": return_zero, "observers": observers}))
+class _StubTOML:
+    def parse(self, path, env=None, ignore_missing_includes=False):
+        return _StubConfig()
+
+
+_CL = None
+
+
+def exit_status(return_zero, observers, quiet=0):
+    """what the REAL `CompareLocales.handle` returns when `compareProjects` hands it `observers` (an ObserverList after a
+    history): `handle` runs as it is — whatever it reads off the observers to compute its return value — with
+    `extract_positionals`, the config loader and `compareProjects` replaced by stubs and `--json -` into a sink (so that
+    neither `serializeDetails` nor `serializeSummaries`, which raise at the excluded points of the text theorems, runs).
+    One `.toml` config path per project observer.  -> the return value, or "!<exception>" """
+    global _CL
+    import logging
+    from compare_locales import commands
+    if _CL is None:
+        _CL = commands.CompareLocales()
+    cps = ["/c10/p%d.toml" % i for i, _ in enumerate(observers)]
+    saved = [(commands, n, getattr(commands, n)) for n in ("compareProjects", "TOMLParser", "json_dump")]
+    saved.append((commands.CompareLocales, "extract_positionals", commands.CompareLocales.extract_positionals))
+    root = logging.getLogger()
+    level = root.level
+    old = sys.stdout
+    try:
+        commands.compareProjects = lambda *a, **kw: observers
+        commands.TOMLParser = _StubTOML
+        commands.json_dump = lambda *a, **kw: None
+        commands.CompareLocales.extract_positionals = lambda self, **kw: (list(cps), "/c10/l10n", ["de"])
+        sys.stdout = _Sink()
+        try:
+            rv = _CL.handle(quiet=quiet, config_paths=list(cps), l10n_base_dir="/c10/l10n", locales=["de"],
+                            return_zero=bool(return_zero), json="-")
+        except BaseException as e:   # noqa  (SystemExit included)
+            return "!" + type(e).__name__
+        return rv if isinstance(rv, str) else int(rv)
+    finally:
+        sys.stdout = old
+        root.setLevel(level)
+        for obj, name, val in saved:
+            setattr(obj, name, val)
 
 
 # ------------------------------------------------------------------ histories
@@ -282,8 +345,8 @@ def impl_obs(case, quiet):
         canon += " |O " + show_obs(o)
     canon += " |sd=" + show_exc_text(ol.serializeDetails)
     canon += " |ss=" + show_exc_text(ol.serializeSummaries)
-    rc = exit_status(bool(case["rz"]), ol)
-    canon += " |exit=%d" % rc
+    rc = exit_status(bool(case["rz"]), ol, quiet)
+    canon += " |exit=%s" % rc
 
     def plain(o):
         return {"error": bool(o.error),
